@@ -104,6 +104,13 @@ def expected_tt(nl, names, state_names):
     return nv, mask, col
 
 
+def structure(c):
+    """names, kinds and wiring of a circuit in its own order (constants get running numbers: named by position)"""
+    return ([(n.name, n.kind, [None if l is None else (l.driver.name, l.driver_pin) for l in n.ins],
+              [None if l is None else (l.reader.name, l.reader_pin) for l in n.outs]) for n in c.nodes],
+            [None if n is None else n.name for n in c.io_nodes])
+
+
 def v_case(res, case, lib, cmap, dff):
     from kyupy import verilog
     nl = NL.from_json(case['nl'])
@@ -115,6 +122,14 @@ def v_case(res, case, lib, cmap, dff):
         text, ports, inst, in_names, out_names_r = render.verilog(nl, cmap, dff, opts)
         case['text'] = text
         c = verilog.parse(text, tlib=lib, branchforks=case['bf'])
+        if common.h64(text) % 3 == 0:
+            # the result of parsing is a function of the text alone: a second parse (after all the parses this worker did before)
+            # gives the same circuit, and the first one is not touched by it
+            d1 = structure(c)
+            c_again = verilog.parse(text, tlib=lib, branchforks=case['bf'])
+            if structure(c_again) != d1 or structure(c) != d1:
+                res.violation(key + '/reparse', case, f'parsing the same text twice gives different circuits\n{text}')
+            res.count('v_reparsed')
         got_ports = [n.name for n in c.io_nodes]
         if got_ports != ports:
             res.violation(key + '/ports', case, f'io_nodes {got_ports} expected {ports}\n{text}')
